@@ -120,4 +120,15 @@ def recvPacket (P : Prims) : Nat → Dir → List UInt8 → List UInt8 → RecvO
     | .authFail => .authFail
     | .packet ign c d' rest => if ign then recvPacket P fuel d' rest [] else .ok c d' rest
 
+/-! ### raw I/O helpers of the Peer (Send / Receive) -/
+
+/-- `Peer.Receive(n)` on a stream that ends: either exactly `n` bytes and the rest of the stream, or
+the error together with the number of bytes that had been read (everything that was left) -/
+def recvN (inp : List UInt8) (n : Nat) : Except Nat (List UInt8 × List UInt8) :=
+  if inp.length < n then .error inp.length else .ok (inp.take n, inp.drop n)
+
+/-- `Peer.Send(data)` on a writer that accepts at most `cap` bytes per call without reporting an
+error: bytes written, and whether the short write is reported (io.ErrShortWrite) -/
+def sendN (len cap : Nat) : Nat × Bool := if cap < len then (cap, false) else (len, true)
+
 end BV.C19
